@@ -267,6 +267,10 @@ def gen_zone_session(rng, z, nprobe=40, do_find=True, do_findn=False, lookups=Tr
             f = fields_of_local(L, rng.choice([0, 5]))
             if rng.random() < 0.03 and f["s"] == 59:
                 f["s"] = 60
+            if rng.random() < 0.04:
+                # one field pushed just out of its range: the search must refuse it exactly like the constructors do
+                fld, bad = rng.choice([("ns", 10**9), ("ns", 2**31 - 1), ("s", 61), ("mi", 60), ("h", 24), ("mo", 13), ("mo", 0), ("d", 0), ("d", 32)])
+                f[fld] = bad
             if do_findn and rng.random() < 0.5:
                 f["n"] = rng.randint(0, 4)
                 yield {"op": "findn", "a": f}
@@ -607,7 +611,8 @@ def gen_c14(rng, n):
     yield zone_event(z)
     for i in range(n):
         if i % 200 == 199:
-            yield zone_event(gen_table_zone(rng, nmax=10))
+            z = gen_table_zone(rng, nmax=10)
+            yield zone_event(z)
         t = interesting_instant(rng)
         ns = rng.choice([0, 1, 999999999, rng.randint(0, 999999999)])
         ty = rand_type(rng, rng.choice(["small", "wide", "wide"]))
@@ -618,8 +623,16 @@ def gen_c14(rng, n):
             f = rand_fields(rng, 0.85)
             f["type"] = ty
             yield {"op": "newdt", "a": f}
-        elif k < 0.65:
+        elif k < 0.6:
             yield {"op": "project", "a": {"t": W(t), "ns": ns, "type": ty, "via": rng.choice(["dt", "utc"])}}
+        elif k < 0.65:
+            # a source type with the SAME offset as one of the target zone's types but another designation / DST flag:
+            # the projected value must carry the zone's type, not the source's
+            zt = rng.choice(z["ty"])
+            src = {"off": zt["off"], "dst": 1 - zt["dst"] if rng.random() < 0.5 else zt["dst"], "des": B(rng.choice(["SRC", "OTHER", "GMT"]))}
+            tz_times = [tr[0] for tr in z["tr"]] or [t]
+            tt = rng.choice(tz_times) + rng.choice([-1, 0, 1, 1000, -1000])
+            yield {"op": "project", "a": {"t": W(max(I64MIN, min(I64MAX, tt))), "ns": ns, "type": src, "via": "dt"}}
         elif k < 0.85:
             t2 = t + rng.choice([0, 0, 1, -1, rng.randint(-5, 5)])
             ns2 = rng.choice([ns, ns, 0, 999999999])
@@ -785,6 +798,9 @@ def gen_rule_zone_session(rng, r, with_table=False, do_find=True, do_findn=False
 
     def search(L):
         f = fields_of_local(L, 0)
+        if rng.random() < 0.03:
+            fld, bad = rng.choice([("ns", 10**9), ("ns", 2**31 - 1), ("s", 61), ("mi", 60), ("h", 24), ("mo", 13), ("d", 0), ("d", 32)])
+            f[fld] = bad
         if do_findn and rng.random() < 0.5:
             f["n"] = rng.randint(0, 4)
             return {"op": "findn", "a": f}
